@@ -36,3 +36,120 @@ def gen_wire_enums(force=False):
                 body += f"def {n}_{x.name} : Nat := {int(x.value)}\n"
     body += "end Generated.WireEnums\n"
     gen_lean.write_if_changed("WireEnums.lean", body)
+
+
+# =====================================================================================================
+# Structural facts of the packet-assembly code (ast passes) -> lean/Generated/WireFacts.lean
+# =====================================================================================================
+def _is_self_attr(node, attr=None):
+    import ast
+    return (isinstance(node, ast.Attribute) and isinstance(node.value, ast.Name) and node.value.id == "self"
+            and (attr is None or node.attr == attr))
+
+
+def _thread_local_ctor(call, tree):
+    """is `call` a call of threading.local (as imported by this module: `from threading import local [as x]`,
+    `import threading [as t]` + `t.local()`), with no arguments"""
+    import ast
+    if not isinstance(call, ast.Call) or call.args or call.keywords:
+        return False
+    names, mods = set(), set()
+    for n in ast.walk(tree):
+        if isinstance(n, ast.ImportFrom) and n.module == "threading":
+            names |= {a.asname or a.name for a in n.names if a.name == "local"}
+        elif isinstance(n, ast.Import):
+            mods |= {a.asname or a.name for a in n.names if a.name == "threading"}
+    f = call.func
+    if isinstance(f, ast.Name):
+        return f.id in names
+    return isinstance(f, ast.Attribute) and f.attr == "local" and isinstance(f.value, ast.Name) and f.value.id in mods
+
+
+def rx_context_facts(source: str) -> dict:
+    """The per-reception context of geonet.Router: the attribute(s) X with a store `self.X.secured_message = ...` (the
+    secured message of the packet being received, re-emitted by `_forward_pdu`).
+      holders      : number of such attributes X
+      thread_local : every binding `self.X = <value>` anywhere in the class is `threading.local()` (and there is one)
+      reset_finally: every store of a non-None value to `self.X.secured_message` is the statement right before a `try:` whose
+                     `finally:` stores None to it (the context never outlives the dispatch of its packet)
+      readers      : functions that read `self.X` (`getattr(self.X, "secured_message", ...)` / attribute load)"""
+    import ast
+    tree = ast.parse(source)
+    cls = next(n for n in tree.body if isinstance(n, ast.ClassDef) and n.name == "Router")
+    holders = set()
+    for n in ast.walk(cls):
+        if isinstance(n, ast.Assign):
+            for t in n.targets:
+                if isinstance(t, ast.Attribute) and t.attr == "secured_message" and _is_self_attr(t.value):
+                    holders.add(t.value.attr)
+    binds = [n for n in ast.walk(cls) if isinstance(n, (ast.Assign, ast.AnnAssign))
+             for t in (n.targets if isinstance(n, ast.Assign) else [n.target]) if _is_self_attr(t) and t.attr in holders]
+    thread_local = bool(holders) and bool(binds) and all(_thread_local_ctor(b.value, tree) for b in binds) and \
+        {t.attr for b in binds for t in (b.targets if isinstance(b, ast.Assign) else [b.target]) if _is_self_attr(t)} >= holders
+
+    def is_store(st, none):
+        if not (isinstance(st, ast.Assign) and len(st.targets) == 1):
+            return False
+        t = st.targets[0]
+        if not (isinstance(t, ast.Attribute) and t.attr == "secured_message" and _is_self_attr(t.value) and t.value.attr in holders):
+            return False
+        return (isinstance(st.value, ast.Constant) and st.value.value is None) == none
+    sets = resets_ok = 0
+    for n in ast.walk(cls):
+        for field in ("body", "orelse", "finalbody"):
+            block = getattr(n, field, None)
+            if not isinstance(block, list):
+                continue
+            for i, st in enumerate(block):
+                if is_store(st, none=False):
+                    sets += 1
+                    nxt = block[i + 1] if i + 1 < len(block) else None
+                    if isinstance(nxt, ast.Try) and any(is_store(f, none=True) and ast.dump(f.targets[0]) == ast.dump(st.targets[0])
+                                                        for f in nxt.finalbody):
+                        resets_ok += 1
+    readers = sorted({fn.name for fn in ast.walk(cls) if isinstance(fn, (ast.FunctionDef, ast.AsyncFunctionDef))
+                      for n in ast.walk(fn) if _is_self_attr(n) and n.attr in holders and isinstance(n.ctx, ast.Load)
+                      and fn.name != "__init__"})
+    return {"holders": len(holders), "thread_local": thread_local, "sets": sets, "reset_finally": sets > 0 and resets_ok == sets,
+            "readers": readers}
+
+
+def btp_length_facts(source: str) -> dict:
+    """Every `GNDataRequest(...)` built in btp.Router.btp_data_request: is its `length=` argument `len(E)` with E the very
+    expression given as `data=` (so that the Common Header PL field counts the octets handed to GeoNetworking, whatever the
+    BTP-Data.request declares)?   sites: number of constructor calls; from_data: number of those with length = len(data expr)"""
+    import ast
+    tree = ast.parse(source)
+    cls = next(n for n in tree.body if isinstance(n, ast.ClassDef) and n.name == "Router")
+    fn = next(n for n in cls.body if isinstance(n, ast.FunctionDef) and n.name == "btp_data_request")
+    sites = from_data = 0
+    for n in ast.walk(fn):
+        if isinstance(n, ast.Call) and isinstance(n.func, ast.Name) and n.func.id == "GNDataRequest":
+            sites += 1
+            kw = {k.arg: k.value for k in n.keywords}
+            ln, data = kw.get("length"), kw.get("data")
+            if (data is not None and isinstance(ln, ast.Call) and isinstance(ln.func, ast.Name) and ln.func.id == "len"
+                    and len(ln.args) == 1 and not ln.keywords and ast.dump(ln.args[0]) == ast.dump(data)):
+                from_data += 1
+    return {"sites": sites, "from_data": from_data}
+
+
+@gen_lean.register(props=["C02"])
+def gen_wire_facts(force=False):
+    if not (force or _c02_run()):
+        return
+    rx = rx_context_facts(gen_lean.src("geonet/router.py"))
+    bt = btp_length_facts(gen_lean.src("btp/router.py"))
+    b = lambda x: "true" if x else "false"
+    body = "namespace Generated.WireFacts\n"
+    body += "/-- geonet.Router: attributes X with a store `self.X.secured_message = …` (per-reception secured-message context) -/\n"
+    body += f"def rxContextHolders : Nat := {rx['holders']}\n"
+    body += "/-- every binding of such an X is `threading.local()` -/\n"
+    body += f"def rxContextThreadLocal : Bool := {b(rx['thread_local'])}\n"
+    body += "/-- every store of a secured message into the context is followed by `try: … finally: <store None>` -/\n"
+    body += f"def rxContextResetInFinally : Bool := {b(rx['reset_finally'])}\n"
+    body += "/-- btp.Router.btp_data_request: `GNDataRequest(...)` constructor calls / those with `length = len(<the data= expression>)` -/\n"
+    body += f"def btpGnRequestSites : Nat := {bt['sites']}\n"
+    body += f"def btpGnLengthFromData : Nat := {bt['from_data']}\n"
+    body += "end Generated.WireFacts\n"
+    gen_lean.write_if_changed("WireFacts.lean", body)
